@@ -99,6 +99,7 @@ type W struct {
 	cur       *C
 	maxSample int
 	keyCount  map[string]int
+	tc        map[bool]*TypeChecker
 }
 
 // C is the per-case context.
